@@ -38,7 +38,15 @@ impl CachedInfoset {
     /// Sample an action from the current strategy, caches between resets
     fn sample(&mut self) -> usize {
         if self.cached == 0 {
+            #[cfg(not(kani))]
             let res = Multinomial::new(&self.reg.strat).sample(&mut thread_rng());
+            #[cfg(kani)]
+            let res = super::data::verif_kani::draws::draw(
+                1,
+                self as *const Self as usize,
+                self.reg.strat.as_ptr() as usize,
+                self.reg.strat.len(),
+            );
             self.cached = res + 1;
             res
         } else {
